@@ -397,8 +397,7 @@ fn consume_expr<'i>(
                         let mut pairs = pair.into_inner();
                         pairs.next().unwrap(); // opening_paren
                         let contents_pair = pairs.next().unwrap();
-                        let string =
-                            unescape(contents_pair.as_str()).expect("incorrect string literal");
+                        let string = unescape_literal(contents_pair.as_span(), "string")?;
                         ParserNode {
                             expr: ParserExpr::PushLiteral(string[1..string.len() - 1].to_owned()),
                             span: contents_pair.clone().as_span(),
@@ -444,14 +443,14 @@ fn consume_expr<'i>(
                         span: pair.clone().as_span(),
                     },
                     Rule::string => {
-                        let string = unescape(pair.as_str()).expect("incorrect string literal");
+                        let string = unescape_literal(pair.as_span(), "string")?;
                         ParserNode {
                             expr: ParserExpr::Str(string[1..string.len() - 1].to_owned()),
                             span: pair.clone().as_span(),
                         }
                     }
                     Rule::insensitive_string => {
-                        let string = unescape(pair.as_str()).expect("incorrect string literal");
+                        let string = unescape_literal(pair.as_span(), "string")?;
                         ParserNode {
                             expr: ParserExpr::Insens(string[2..string.len() - 1].to_owned()),
                             span: pair.clone().as_span(),
@@ -460,11 +459,11 @@ fn consume_expr<'i>(
                     Rule::range => {
                         let mut pairs = pair.into_inner();
                         let pair = pairs.next().unwrap();
-                        let start = unescape(pair.as_str()).expect("incorrect char literal");
+                        let start = unescape_literal(pair.as_span(), "char")?;
                         let start_pos = pair.clone().as_span().start_pos();
                         pairs.next();
                         let pair = pairs.next().unwrap();
-                        let end = unescape(pair.as_str()).expect("incorrect char literal");
+                        let end = unescape_literal(pair.as_span(), "char")?;
                         let end_pos = pair.clone().as_span().end_pos();
 
                         ParserNode {
@@ -702,6 +701,19 @@ fn consume_expr<'i>(
     };
 
     pratt.map_primary(term).map_infix(infix).parse(pairs)
+}
+
+/// Unescapes a string or character literal; an escape that denotes no `char`
+/// (e.g. `\u{D800}`, which the grammar's syntax admits) is reported as an error at `span`.
+fn unescape_literal(span: Span<'_>, what: &str) -> Result<String, Vec<Error<Rule>>> {
+    unescape(span.as_str()).ok_or_else(|| {
+        vec![Error::new_from_span(
+            ErrorVariant::CustomError {
+                message: format!("incorrect {what} literal: invalid escape sequence"),
+            },
+            span,
+        )]
+    })
 }
 
 /// Verification hook (compiled only with `--cfg pest_parser_pest_verif`): the literal unescaping kernel.
